@@ -3,7 +3,7 @@
    Part A (theorems 1-8).  Model/C02FPipeline.v:checked_pipeline2 = the constructors' check (a NoConn cannot sit inside a Concat / Slice),
    then the default pass list with its checking passes as in Model/C02EPipeline.v, with ResolvePortRefs replaced by the C01F model
    (Model/C01FElab.v:portrefs2_design: module_portrefs holds EVERY reference handed out, update_ref_deps re-parents what is left).
-   Hypotheses (boolean, evaluated on every case of the tie):
+   The hypotheses (boolean, evaluated on every case of the tie):
      given_e d   as in Props/C02E.v: what Python guarantees by construction and the printer by its invariant;
      frag_f d    what is left of frag_e: a reference (at ANY depth now) names a port of a single instance, or of no instance at all.
                  References and no-connects inside slices / concatenations are no longer excluded.
